@@ -33,12 +33,21 @@ RULE = ('cases = (filter curve, SED frequency grid[, small per-file SED package]
         'response; distinct = distinct canonical hash of the generated inputs')
 REQUIRED_BRANCHES = ['filter_increasing_nu', 'filter_decreasing_nu', 'sed_increasing', 'sed_decreasing',
                      'partial_overlap', 'full_overlap', 'edge_on_node', 'from_file', 'nonzero_edges',
-                     'package', 'package_same_ends_other_interior', 'file_wav_increasing', 'file_wav_decreasing',
+                     'package', 'package_same_ends_other_interior', 'package_files', 'package_cube_memmap_on',
+                     'package_cube_memmap_off', 'package_unit_mJy', 'package_unit_Jy', 'package_unit_cgs',
+                     'grid_unit_Hz', 'grid_unit_GHz', 'grid_unit_THz', 'filter_nu_unit_Hz', 'filter_nu_unit_GHz',
+                     'filter_nu_unit_THz', 'file_wav_increasing', 'file_wav_decreasing',
                      'file_asymmetric']
 ASSUMPTIONS = ['IEEE rounding is not modelled: responses compared within 1e-9 of sum|R_i|, fluxes within 1e-9 of '
                'sum|F_i R_i|, variances within 4e-9 relative',
                'filter frequencies strictly monotonic, SED frequencies strictly monotonic, all values finite '
                '(integrate() replacing NaN by 0 in place is outside the quantifier)',
+               'a filter whose responses are all zero re-bins to zeros (checked, not normalised); Filter.normalize of such a '
+               'filter is 0/0 (NaN responses on the unchanged tree) and is outside the quantifier',
+               'cube packages hold spectral flux densities (Jy, mJy): _convolve_model_dir_2 scales with val.unit.to(mJy), which '
+               'raises for erg-based cubes (not supported by the code, left out); '
+               'per-file packages are stored in mJy, Jy or erg/cm^2/s (read with unit_flux=mJy); stored values are expressed '
+               'in mJy exactly (rationals) on the harness side',
                'SED.write/SED.read round trip of the package (C12) is taken as is: the model receives the fluxes '
                'the harness generated, ordered by the frequencies it computed with astropy']
 N = {'quick': 1000, 'thorough': 20000}
@@ -46,6 +55,8 @@ C_UM_HZ = 2.99792458e14          # only used to place grids relative to a filter
 SIZES_F = [2, 2, 3, 3, 4, 5, 6, 8, 10, 12, 16, 20, 30, 45, 60]
 GRID_KINDS = ['cover_coarse', 'cover_fine', 'partial_low', 'partial_high', 'inside', 'any']
 EDGE_KINDS = ['first_on_end', 'last_on_end', 'both_on_ends', 'mid_on_node', 'mid_on_end']
+FREQ_FACTOR = {'Hz': 1., 'GHz': 1e9, 'THz': 1e12}
+FLUX_UNITS = ['mJy', 'Jy', 'cgs']      # units the SED files of a package may be stored in
 
 
 # ----------------------------------------------------------------------------- generation
@@ -58,7 +69,7 @@ def _strict(xs):
     return out
 
 
-def gen_filter(rng, mode, n=None, zero_edges=None, order=None, normalize=None):
+def gen_filter(rng, mode, n=None, zero_edges=None, order=None, normalize=None, nu_unit=None, allow_zero=False):
     n = n or rng.choice(SIZES_F)
     steps = [rng.choice([0.05, 0.2, 1., 1., 1., 3.]) * rng.uniform(0.3, 1.) for _ in range(n - 1)]
     tot = sum(steps)
@@ -117,13 +128,22 @@ def gen_filter(rng, mode, n=None, zero_edges=None, order=None, normalize=None):
     if normalize is None:
         normalize = rng.random() < 0.5
     central = float('%.4g' % (C_UM_HZ / xs[len(xs) // 2] if mode == 'nu' else xs[len(xs) // 2]))
-    return dict(mode=mode, x=xs, r=rs, normalize=bool(normalize), central=central)
+    flt = dict(mode=mode, x=xs, r=rs, normalize=bool(normalize), central=central)
+    if mode == 'nu':
+        # the frequencies may be handed over in another frequency unit (the code converts with .to(u.Hz))
+        flt['nu_unit'] = nu_unit or rng.choice(['Hz', 'Hz', 'GHz', 'THz'])
+        if flt['nu_unit'] != 'Hz':
+            flt['x'] = [float(repr(x / FREQ_FACTOR[flt['nu_unit']])) for x in xs]
+        if allow_zero and not flt['normalize'] and rng.random() < 0.04:
+            flt['r'] = [0.] * len(xs)          # an all-zero curve re-bins to zeros (normalising it is 0/0: excluded)
+    return flt
 
 
 def filter_nu_approx(flt):
     """approximate frequencies of the filter nodes (exact in 'nu' mode), increasing"""
     if flt['mode'] == 'nu':
-        return sorted(flt['x'])
+        fac = FREQ_FACTOR[flt.get('nu_unit', 'Hz')]
+        return sorted(x * fac for x in flt['x'])
     return sorted(C_UM_HZ / x for x in flt['x'])
 
 
@@ -213,11 +233,15 @@ def respace(rng, wav, how):
     return out if all(out[k] < out[k + 1] for k in range(n - 1)) else list(wav)
 
 
-def gen_package(rng, nodes, hetero=None):
+def gen_package(rng, nodes, hetero=None, fmt=None):
     """small per-file package whose wavelength grid(s) overlap the filter.  `hetero`: consecutive models
     (in file-listing order) get grids with the same length and end points but different interior points,
     and sometimes a grid of another length, so that the filters have to be re-binned between models"""
     kind = rng.choice(GRID_KINDS[:-1])
+    if fmt is None:
+        fmt = 'cube' if rng.random() < 0.25 else 'files'
+    if fmt == 'cube':
+        hetero = False                      # a cube has one spectral axis for all models
     if hetero is None:
         hetero = rng.random() < 0.4
     m = rng.randint(4, 25) if hetero else (rng.randint(2, 40) if kind != 'cover_coarse' else None)
@@ -245,7 +269,10 @@ def gen_package(rng, nodes, hetero=None):
         wavs = [w[::-1] for w in wavs] if wavs[0][0] < wavs[0][-1] else wavs
     if not hetero:
         wavs = [list(wavs[0]) for _ in range(nm)]
-    level = nice(rng, 1e-3, 1e3, 2)
+    # stored flux unit: per-file SEDs are read with unit_flux=mJy (any supported unit); a cube is scaled by
+    # val.unit.to(mJy) (spectral flux densities only)
+    unit = rng.choice(['mJy', 'Jy'] if fmt == 'cube' else ['mJy', 'mJy', 'Jy', 'cgs'])
+    level = nice(rng, 1e-3, 1e3, 2) * {'mJy': 1., 'Jy': 1e-3, 'cgs': 1e-12}[unit]
     flux = [[[float('%.4g' % (level * rng.uniform(0.1, 10.))) for _ in wavs[k]] for _ in range(nap)] for k in range(nm)]
     err = [[[float('%.3g' % (f * rng.uniform(0.01, 0.5))) for f in row] for row in mod] for mod in flux]
     names = ['m%02d' % i for i in range(nm)]
@@ -254,8 +281,10 @@ def gen_package(rng, nodes, hetero=None):
     aps = sorted({float('%.3g' % nice(rng, 10., 1e5, 3)) for _ in range(nap)})
     while len(aps) < nap:
         aps.append(aps[-1] * 2)
+    if fmt == 'cube':
+        table = list(names)                 # the cube path requires the parameter table in cube order
     return dict(wavs=wavs, names=names, table=table, flux=flux, err=err, apertures=aps if nap > 1 else None,
-                hetero=bool(hetero))
+                hetero=bool(hetero), fmt=fmt, unit=unit, memmap=bool(rng.random() < 0.5))
 
 
 DIRECTED = [
@@ -282,6 +311,10 @@ DIRECTED = [
     ('file', 'dec', False, True, 'partial_high', 'dec', True),
     ('file', 'inc', True, False, 'cover_fine', 'inc', False),
     ('file', 'dec', False, True, 'cover_fine', 'inc', False),
+    ('nu', 'inc', False, True, 'cover_fine', 'inc', 'cube'),
+    ('wav', 'dec', False, True, 'partial_low', 'dec', 'cube'),
+    ('file', 'dec', True, False, 'cover_coarse', 'inc', 'cube'),
+    ('nu', 'dec', False, False, 'inside', 'inc', 'cube'),
     ('nu', 'inc', False, True, 'cover_fine', 'inc', 'hetero'),
     ('wav', 'dec', True, True, 'cover_coarse', 'inc', 'hetero'),
     ('file', 'inc', False, False, 'cover_fine', 'dec', 'hetero'),
@@ -301,12 +334,18 @@ def gen_case(rng, directed=None, small=False):
         gkind = rng.choice(GRID_KINDS + (EDGE_KINDS if mode == 'nu' else []))
         with_pkg = rng.random() < 0.3
         n = None
-    flt = gen_filter(rng, mode, n=n, zero_edges=zero, order=forder, normalize=norm)
+    exact = mode == 'nu' and gkind in EDGE_KINDS      # edges placed exactly on nodes need integer Hz values
+    flt = gen_filter(rng, mode, n=n, zero_edges=zero, order=forder, normalize=norm,
+                     nu_unit='Hz' if exact else None, allow_zero=not directed)
     nodes = filter_nu_approx(flt)
-    grid = gen_grid(rng, gkind, nodes, mode == 'nu', order=gorder)
-    case = dict(kind=gkind, filter=flt, grid=grid, package=None)
+    grid = gen_grid(rng, gkind, nodes, exact, order=gorder)
+    grid_unit = 'Hz' if exact else rng.choice(['Hz', 'Hz', 'GHz', 'THz'])
+    if grid_unit != 'Hz':
+        grid = [float(repr(g / FREQ_FACTOR[grid_unit])) for g in grid]
+    case = dict(kind=gkind, filter=flt, grid=grid, grid_unit=grid_unit, package=None)
     if with_pkg:
-        case['package'] = gen_package(rng, nodes, hetero=True if with_pkg == 'hetero' else (False if directed else None))
+        case['package'] = gen_package(rng, nodes, hetero=True if with_pkg == 'hetero' else (False if directed else None),
+                                      fmt='cube' if with_pkg == 'cube' else ('files' if directed else None))
     return case
 
 
@@ -324,12 +363,23 @@ def gen_cases(seed, tier):
 
 # ----------------------------------------------------------------------------- real side
 
+def freq_unit(name):
+    from astropy import units as u
+    return {'Hz': u.Hz, 'GHz': u.GHz, 'THz': u.THz}[name]
+
+
+def to_hz(vals, unit):
+    """frequencies given in `unit` as the float Hz values the code works with (`.to(u.Hz).value`)"""
+    from astropy import units as u
+    return [float(v) for v in (np.array(vals, dtype=float) * freq_unit(unit)).to(u.Hz).value]
+
+
 def written_nu(flt):
     """the frequencies of the samples as written / passed in, in that order (c / lambda by astropy, in float,
     exactly the operation make_filter and Filter.read apply)"""
     from astropy import units as u
     if flt['mode'] == 'nu':
-        return [float(v) for v in flt['x']]
+        return to_hz(flt['x'], flt.get('nu_unit', 'Hz'))
     return [float(v) for v in (np.array(flt['x'], dtype=float) * u.micron).to(u.Hz, equivalencies=u.spectral()).value]
 
 
@@ -340,7 +390,8 @@ def build_filter(flt, d):
     from sedfitter.filter import Filter
     if flt['mode'] == 'nu':
         f = Filter(name='FLT', central_wavelength=flt['central'] * u.micron,
-                   nu=np.array(flt['x'], dtype=float) * u.Hz, response=np.array(flt['r'], dtype=float))
+                   nu=np.array(flt['x'], dtype=float) * freq_unit(flt.get('nu_unit', 'Hz')),
+                   response=np.array(flt['r'], dtype=float))
     elif flt['mode'] == 'wav':
         f = pk.make_filter('FLT', flt['central'], flt['x'], flt['r'], normalize=False)
     else:
@@ -361,7 +412,7 @@ def build_filter(flt, d):
             if not (abs(a - b) <= 1e-14 * abs(b)) or ra != rb:
                 why = ('sample %d of the filter (%s, written as %r %s with response %r): the Filter object pairs nu = %r Hz '
                        'with response %r; c/lambda = %r Hz' % (i, flt['mode'], flt['x'][i],
-                                                             'Hz' if flt['mode'] == 'nu' else 'micron', flt['r'][i], a, ra, b))
+                                                             flt.get('nu_unit', 'Hz') if flt['mode'] == 'nu' else 'micron', flt['r'][i], a, ra, b))
                 break
     if flt['normalize']:
         f.normalize()
@@ -463,6 +514,10 @@ def grid_branches(nus_held, grid, flt):
         b.add('zero_edges')
     if flt['normalize']:
         b.add('normalized')
+    if flt['mode'] == 'nu':
+        b.add('filter_nu_unit_' + flt.get('nu_unit', 'Hz'))
+    if not any(r > 0 for r in flt['r']):
+        b.add('all_zero_filter')
     return b
 
 
@@ -470,7 +525,9 @@ def run_case(case):
     from astropy import units as u
     d = tempfile.mkdtemp(prefix='c06_')
     flt = case['filter']
-    grid = case['grid']
+    grid_in = case['grid']
+    gunit = case.get('grid_unit', 'Hz')
+    grid = to_hz(grid_in, gunit)           # the float Hz values rebin works with (nu_new.to(u.Hz).value)
     try:
         drv = common.driver()
         try:
@@ -479,13 +536,14 @@ def run_case(case):
                 # the model works on the samples the harness wrote (frequencies by c/lambda in written order);
                 # the Filter object must hold exactly those pairs
                 nus_held = written_nu(flt)
-                resp = np.array(f.rebin(np.array(grid, dtype=float) * u.Hz).response, dtype=float)
+                resp = np.array(f.rebin(np.array(grid_in, dtype=float) * freq_unit(gunit)).response, dtype=float)
         except Exception as e:
             return CaseResult(False, violates=True,
                               detail='building / rebinning an in-domain filter raised %s: %s' % (type(e).__name__, e))
         if why:
             return CaseResult(False, violates=True, branches=sorted(grid_branches(nus_held, grid, flt)), detail=why)
         branches = grid_branches(nus_held, grid, flt)
+        branches.add('grid_unit_' + gunit)
         fl = filter_line(flt, nus_held)
         t = drv.ask('c06.rebin %s %s' % (fl, rats(grid)))
         model = t.rats()
@@ -514,6 +572,9 @@ def run_case(case):
                 res.branches = sorted(set(res.branches) | branches)
                 return res
             branches.add('package')
+            branches.add('package_cube_memmap_%s' % ('on' if pkg.get('memmap') else 'off') if pkg.get('fmt') == 'cube'
+                         else 'package_files')
+            branches.add('package_unit_' + pkg.get('unit', 'mJy'))
             grids = package_grids(pkg)
             if any(sorted(grids[k]) != sorted(grids[k + 1]) for k in range(len(grids) - 1)):
                 branches.add('package_grids_differ')
@@ -528,6 +589,15 @@ def run_case(case):
                           sample=sample)
     finally:
         shutil.rmtree(d, ignore_errors=True)
+
+
+def in_mjy(vals, nus, unit):
+    """stored values in mJy, exactly (F_nu = F / nu; 1 mJy = 1e-26 erg/cm^2/s/Hz; 1 Jy = 1000 mJy)"""
+    if unit == 'mJy':
+        return [Fraction(float(v)) for v in vals]
+    if unit == 'Jy':
+        return [Fraction(float(v)) * 1000 for v in vals]
+    return [Fraction(float(v)) / Fraction(float(n)) * 10 ** 26 for v, n in zip(vals, nus)]
 
 
 def package_grids(pkg):
@@ -545,15 +615,24 @@ def run_package(case, f, flt, nus_held, d, drv):
     os.makedirs(os.path.join(md, 'seds'))
     wavs = package_grids(pkg)
     nap = len(pkg['flux'][0])
+    unit = pkg.get('unit', 'mJy')
+    aunit = {'mJy': u.mJy, 'Jy': u.Jy, 'cgs': u.erg / u.cm ** 2 / u.s}[unit]
+    cube = pkg.get('fmt') == 'cube'
     try:
         with common.quiet():
-            # per-file package; file-listing order = order of `names`; every model has its own grid
-            pk.write_conf(md, aperture_dependent=nap > 1, version=1)
-            for k, name in enumerate(pkg['names']):
-                sed = pk.make_sed(name, wavs[k], pkg['flux'][k], pkg['err'][k], pkg['apertures'])
-                sed.write(os.path.join(md, 'seds', name + '_sed.fits'), overwrite=True)
-            pk.write_parameters(md, list(pkg['table']), {'PAR1': [float(pkg['names'].index(n)) for n in pkg['table']]})
-            convolve_model_dir(md, [f])
+            if cube:
+                # cube package (version 2): one spectral axis, values and uncertainties in `unit`
+                pk.write_cube_package(md, pkg['names'], wavs[0], np.array(pkg['flux'], dtype=float),
+                                      np.array(pkg['err'], dtype=float), apertures_au=pkg['apertures'], unit=aunit)
+                convolve_model_dir(md, [f], memmap=bool(pkg.get('memmap')))
+            else:
+                # per-file package; file-listing order = order of `names`; every model has its own grid
+                pk.write_conf(md, aperture_dependent=nap > 1, version=1)
+                for k, name in enumerate(pkg['names']):
+                    sed = pk.make_sed(name, wavs[k], pkg['flux'][k], pkg['err'][k], pkg['apertures'], unit=aunit)
+                    sed.write(os.path.join(md, 'seds', name + '_sed.fits'), overwrite=True)
+                pk.write_parameters(md, list(pkg['table']), {'PAR1': [float(pkg['names'].index(n)) for n in pkg['table']]})
+                convolve_model_dir(md, [f])
             c = ConvolvedFluxes.read(os.path.join(md, 'convolved', f.name + '.fits'))
             got_names = [str(n).strip() for n in c.model_names]
             got_flux = np.asarray(c.flux.to(u.mJy).value, dtype=float)
@@ -576,7 +655,7 @@ def run_package(case, f, flt, nus_held, d, drv):
         err = np.array(pkg['err'][mi], dtype=float).reshape(nap, -1)
         line = ['c06.convolve', fl, rats(nus), str(nap)]
         for a in range(nap):
-            line += [rats(flux[a, order]), rats(err[a, order])]
+            line += [rats(in_mjy(flux[a, order], nus, unit)), rats(in_mjy(err[a, order], nus, unit))]
         t = drv.ask(' '.join(line))
         n = t.nat()
         row = got_names.index(name)
@@ -591,9 +670,9 @@ def run_package(case, f, flt, nus_held, d, drv):
                 return CaseResult(False, violates=True,
                                   detail=('model %s (#%d of %d in file order, %d wavelengths %r..%r) aperture %d: convolved file has '
                                           'flux %r mJy, error %r mJy (error^2 %r); sum_i F_i R_i = %r, sum_i (E_i R_i)^2 = %r with '
-                                          'R_i the exact bin integrals on this model\'s own frequency grid'
+                                          'R_i the exact bin integrals on this model\'s own frequency grid; package %s in %s'
                                           % (name, mi, len(pkg['names']), len(nus), wavs[mi][0], wavs[mi][-1], a, gf, ge, ge * ge,
-                                             float(mf), float(mv))))
+                                             float(mf), float(mv), 'cube (memmap=%s)' % pkg.get('memmap') if cube else 'per-file', unit)))
     return None
 
 
@@ -620,11 +699,13 @@ def search(seed, tier, disagreeing_cases):
                 with common.quiet():
                     f, why0 = build_filter(flt, d)
                     nus_held = written_nu(flt)
-                    resp = np.array(f.rebin(np.array(case['grid'], dtype=float) * u.Hz).response, dtype=float)
+                    grid_hz = to_hz(case['grid'], case.get('grid_unit', 'Hz'))
+                    resp = np.array(f.rebin(np.array(case['grid'], dtype=float) * freq_unit(case.get('grid_unit', 'Hz'))).response,
+                                    dtype=float)
             except Exception as e:
                 found.append((dict(case, package=None), 'in-domain rebin raised %s: %s' % (type(e).__name__, e)))
                 continue
-            why = why0 or property_on_rebin(flt, nus_held, case['grid'], resp)
+            why = why0 or property_on_rebin(flt, nus_held, grid_hz, resp)
             if why:
                 found.append((dict(case, package=None), why))
         finally:
